@@ -42,9 +42,18 @@ def main():
         tier = sys.argv[sys.argv.index("--tier") + 1]
         args = [a for a in args if a != tier]
     rows = []
-    for name, prop, patch in items():
-        if args and not any(fnmatch.fnmatch(name, "*" + a + "*") for a in args):
-            continue
+    selected = [(n, pr, pa) for n, pr, pa in items()
+                if not args or any(fnmatch.fnmatch(n, "*" + a + "*") for a in args)]
+    # baseline first: a check that alarms on the unchanged tree makes every "caught" below meaningless
+    if "--no-baseline" not in sys.argv:
+        for prop in sorted({pr for _, pr, _ in selected}):
+            c = subprocess.run([PY, "-m", "vf.run", prop, "--tier", tier], cwd=VERIF,
+                               env=dict(os.environ, VERIF_TIER=tier), capture_output=True)
+            ok = c.returncode == 0 and b"VIOLATION" not in c.stdout
+            print("%-40s %-12s" % ("baseline:" + prop, "held" if ok else "BASELINE-ALARM rc=%d" % c.returncode), flush=True)
+            if not ok:
+                rows.append(("baseline:" + prop, "BASELINE-ALARM", ""))
+    for name, prop, patch in selected:
         tmp = tempfile.mkdtemp(prefix="vfmut-")
         try:
             for sub in ("src", "tests", "pyproject.toml"):
